@@ -2,6 +2,7 @@ package main
 
 import (
 	"bytes"
+	"crypto/tls"
 	"errors"
 	"fmt"
 	"io"
@@ -42,11 +43,14 @@ type RefServer struct {
 	mu        sync.Mutex
 	Caps      []string           // EHLO capability lines
 	Script    map[int]SrvAction  // overrides by position (0 = greeting, then one per command / end-of-data)
-	AuthPlan  func(step int, line string) (SrvAction, bool) // optional: replies during an AUTH exchange
+	Dynamic   func(pos int, verb, line string) (SrvAction, bool) // optional: computes the action when the script has none
+	TLSGood   *tls.Config // certificate valid for the configured host
+	TLSBad    *tls.Config // certificate the client must reject (wrong name / untrusted), chosen by the scenario
+	tlsActive bool
+	curLine   string
 	pos       int
 	inData    bool
 	inAuth    bool
-	authStep  int
 	lineBuf   []byte
 	dataBuf   []byte
 	Events    []Event
@@ -55,6 +59,9 @@ type RefServer struct {
 	Verbs     []string    // the verb (or "greeting"/"eod") seen at each position
 	closed    bool        // server closed the connection
 	stalled   bool        // server will never speak again
+	tlsStarted bool
+	tlsServing bool       // replies now travel inside TLS
+	tlsDone   chan struct{}
 	out       *bytes.Buffer
 }
 
@@ -64,6 +71,9 @@ func NewRefServer(caps []string, script map[int]SrvAction) *RefServer {
 
 func (s *RefServer) action(verb string) SrvAction {
 	a, ok := s.Script[s.pos]
+	if !ok && s.Dynamic != nil {
+		a, ok = s.Dynamic(s.pos, verb, s.curLine)
+	}
 	if !ok {
 		a = SrvAction{Kind: "ok"}
 	}
@@ -104,9 +114,9 @@ func (s *RefServer) defaultReply(verb string) (int, string) {
 		return 221, "2.0.0 Bye"
 	case "STARTTLS":
 		return 220, "2.0.0 Ready to start TLS"
-	case "AUTH":
+	case "AUTH", "auth-step":
 		return 235, "2.7.0 Authentication successful"
-	case "*":
+	case "auth-abort":
 		return 501, "5.0.0 Authentication aborted"
 	}
 	return 500, "5.5.2 Error: command not recognized"
@@ -138,6 +148,9 @@ func (s *RefServer) respond(verb string) int {
 }
 
 func verbOf(line string) string {
+	if line == "*" {
+		return "auth-abort"
+	}
 	up := strings.ToUpper(line)
 	for _, v := range []string{"EHLO", "HELO", "MAIL", "RCPT", "DATA", "RSET", "NOOP", "QUIT", "STARTTLS", "AUTH", "VRFY"} {
 		if up == v || strings.HasPrefix(up, v+" ") {
@@ -190,32 +203,19 @@ func (s *RefServer) feed(p []byte) {
 		line := string(s.lineBuf[:i])
 		s.lineBuf = append([]byte(nil), s.lineBuf[i+2:]...)
 		s.Events = append(s.Events, Event{Kind: "cmd", Line: line, Pos: s.pos})
+		s.curLine = line
 		if s.inAuth {
-			s.authStep++
-			var a SrvAction
-			ok := false
-			if s.AuthPlan != nil {
-				a, ok = s.AuthPlan(s.authStep, line)
+			verb := "auth-step"
+			if line == "*" {
+				verb = "auth-abort"
 			}
-			if !ok {
-				a = SrvAction{Kind: "reply", Code: 235, Text: "2.7.0 Authentication successful"}
+			code := s.respond(verb)
+			if code != 334 {
+				s.inAuth = false
 			}
-			s.applyAuth(a, line)
 			continue
 		}
 		verb := verbOf(line)
-		if verb == "AUTH" && s.AuthPlan != nil {
-			if _, scripted := s.Script[s.pos]; !scripted {
-				s.authStep = 0
-				a, ok := s.AuthPlan(0, line)
-				if !ok {
-					a = SrvAction{Kind: "reply", Code: 235, Text: "2.7.0 Authentication successful"}
-				}
-				s.inAuth = true
-				s.applyAuth(a, line)
-				continue
-			}
-		}
 		code := s.respond(verb)
 		switch {
 		case verb == "DATA" && code == 354:
@@ -224,26 +224,9 @@ func (s *RefServer) feed(p []byte) {
 			s.closed = true
 		case verb == "AUTH" && code == 334:
 			s.inAuth = true
-			s.authStep = 0
-		}
-	}
-}
-
-func (s *RefServer) applyAuth(a SrvAction, line string) {
-	s.Applied = append(s.Applied, a)
-	s.Verbs = append(s.Verbs, "auth-step")
-	s.pos++
-	switch a.Kind {
-	case "drop":
-		s.closed = true
-		s.inAuth = false
-		s.Events = append(s.Events, Event{Kind: "drop", Pos: s.pos - 1})
-	case "stall":
-		s.stalled = true
-	default:
-		s.sendReply(a.Code, a.Text)
-		if a.Code != 334 {
-			s.inAuth = false
+		case verb == "STARTTLS" && code == 220 && s.TLSGood != nil:
+			s.tlsActive = true
+			return
 		}
 	}
 }
@@ -285,6 +268,9 @@ type ScriptConn struct {
 	Closes   int
 	Blocked  []string // "armed" / "unarmed" for every read that found the server silent
 	name     string
+	raw      *pipeEnd     // non-nil once the server switched to TLS: bytes are TLS records from here on
+	Clear    bytes.Buffer // everything the client wrote before the switch (cleartext on the wire)
+	deadline time.Time
 }
 
 func NewScriptConn(srv *RefServer) *ScriptConn {
@@ -304,6 +290,39 @@ func (c *ScriptConn) Read(p []byte) (int, error) {
 		return 0, net.ErrClosed
 	}
 	c.srv.mu.Lock()
+	if c.raw != nil {
+		// plain replies queued before the switch (the 220 to STARTTLS) are delivered first
+		if c.srv.out.Len() > 0 && !c.srv.tlsServing {
+			n, err := c.srv.out.Read(p)
+			c.srv.mu.Unlock()
+			return n, err
+		}
+		raw := c.raw
+		armed := c.armed
+		c.srv.mu.Unlock()
+		if !armed {
+			// no deadline armed: a silent server would block this read forever; a watchdog turns that
+			// into a recorded "blocks forever" instead of hanging the harness
+			_ = raw.SetDeadline(time.Now().Add(2 * time.Second))
+		}
+		c.mu.Unlock()
+		n, err := raw.Read(p)
+		c.mu.Lock()
+		if err != nil && errors.Is(err, os.ErrDeadlineExceeded) {
+			c.srv.mu.Lock()
+			if armed {
+				c.srv.Events = append(c.srv.Events, Event{Kind: "stall-armed"})
+			} else {
+				c.srv.Events = append(c.srv.Events, Event{Kind: "stall-unarmed"})
+				err = errBlocksForever
+			}
+			c.srv.mu.Unlock()
+			if armed {
+				err = timeoutErr{}
+			}
+		}
+		return n, err
+	}
 	defer c.srv.mu.Unlock()
 	if c.srv.out.Len() > 0 {
 		return c.srv.out.Read(p)
@@ -328,8 +347,29 @@ func (c *ScriptConn) Write(p []byte) (int, error) {
 		c.mu.Unlock()
 		return 0, net.ErrClosed
 	}
+	raw := c.raw
+	if raw == nil {
+		c.Clear.Write(p)
+	}
 	c.mu.Unlock()
+	if raw != nil {
+		return raw.Write(p)
+	}
 	c.srv.feed(p)
+	c.srv.mu.Lock()
+	start := c.srv.tlsActive && !c.srv.tlsStarted
+	if start {
+		c.srv.tlsStarted = true
+	}
+	c.srv.mu.Unlock()
+	if start {
+		cEnd, sEnd := newBufPipe()
+		c.mu.Lock()
+		c.raw = cEnd
+		_ = cEnd.SetDeadline(c.deadline)
+		c.mu.Unlock()
+		go c.srv.serveTLS(sEnd)
+	}
 	return len(p), nil
 }
 
@@ -344,6 +384,9 @@ func (c *ScriptConn) Close() error {
 	c.srv.mu.Lock()
 	c.srv.Events = append(c.srv.Events, Event{Kind: "close"})
 	c.srv.mu.Unlock()
+	if c.raw != nil {
+		_ = c.raw.Close()
+	}
 	return nil
 }
 
@@ -367,10 +410,108 @@ func (c *ScriptConn) SetDeadline(t time.Time) error {
 		return net.ErrClosed
 	}
 	c.armed = !t.IsZero()
+	c.deadline = t
+	if c.raw != nil {
+		_ = c.raw.SetDeadline(t)
+	}
 	c.srv.mu.Lock()
 	c.srv.Events = append(c.srv.Events, Event{Kind: "deadline"})
 	c.srv.mu.Unlock()
 	return nil
 }
-func (c *ScriptConn) SetReadDeadline(t time.Time) error  { return c.SetDeadline(t) }
-func (c *ScriptConn) SetWriteDeadline(t time.Time) error { return c.SetDeadline(t) }
+// crypto/tls sets a write deadline of its own when it sends close_notify; only SetDeadline is the
+// client's own arming of the connection deadline
+func (c *ScriptConn) SetReadDeadline(t time.Time) error {
+	c.mu.Lock()
+	defer c.mu.Unlock()
+	c.armed = !t.IsZero()
+	if c.raw != nil {
+		_ = c.raw.SetDeadline(t)
+	}
+	return nil
+}
+func (c *ScriptConn) SetWriteDeadline(t time.Time) error { return nil }
+
+// serveTLS runs on its own goroutine once the client has been told to start TLS: it takes the
+// handshake action from the script and then keeps feeding the decrypted bytes to the same state machine.
+func (s *RefServer) serveTLS(end *pipeEnd) {
+	defer func() {
+		if s.tlsDone != nil {
+			close(s.tlsDone)
+		}
+	}()
+	s.mu.Lock()
+	a := s.action("handshake")
+	good, bad := s.TLSGood, s.TLSBad
+	s.mu.Unlock()
+	record := func(kind string) {
+		s.mu.Lock()
+		s.Events = append(s.Events, Event{Kind: kind})
+		s.mu.Unlock()
+	}
+	switch a.Kind {
+	case "drop":
+		record("drop")
+		s.mu.Lock()
+		s.closed = true
+		s.mu.Unlock()
+		_ = end.Close()
+		return
+	case "stall":
+		s.mu.Lock()
+		s.stalled = true
+		s.mu.Unlock()
+		return
+	case "garbage", "reply":
+		// anything that is not a TLS handshake (an SMTP reply line is just as wrong here)
+		_, _ = end.Write([]byte("\x15\x03\x01\x00\x02\x02\x28 this is not a TLS handshake\r\n"))
+		record("tls-fail")
+		time.Sleep(20 * time.Millisecond)
+		_ = end.Close()
+		return
+	}
+	cfg := good
+	if a.Kind == "tlsbad" {
+		cfg = bad
+	}
+	conn := tls.Server(end, cfg)
+	_ = conn.SetDeadline(time.Now().Add(3 * time.Second))
+	if err := conn.Handshake(); err != nil {
+		record("tls-fail")
+		_ = end.Close()
+		return
+	}
+	_ = conn.SetDeadline(time.Time{})
+	if a.Kind == "tlsbad" {
+		// the client accepted a certificate it must reject
+		record("tls-accepted-bad-cert")
+	}
+	record("tls-on")
+	s.mu.Lock()
+	s.tlsServing = true
+	s.mu.Unlock()
+	buf := make([]byte, 8192)
+	for {
+		n, err := conn.Read(buf)
+		if n > 0 {
+			s.feed(buf[:n])
+			s.mu.Lock()
+			out := append([]byte(nil), s.out.Bytes()...)
+			s.out.Reset()
+			closed := s.closed
+			s.mu.Unlock()
+			if len(out) > 0 {
+				if _, werr := conn.Write(out); werr != nil {
+					return
+				}
+			}
+			if closed {
+				_ = conn.Close()
+				return
+			}
+		}
+		if err != nil {
+			return
+		}
+	}
+}
